@@ -1316,7 +1316,7 @@ func c20Recovery(c *Case, r *RNG, work string, last c20Update, store string, ips
 			if r.Bool() {
 				return c20Update{Kind: "acct-create", Login: "z" + c20Token(r, 5), Name: "Z", Access: c20RandAccess(r)}
 			}
-			return c20Update{Kind: "acct-update", Login: "guest", NewLogin: "guest", Name: "G " + c20Token(r, 3), Access: c20RandAccess(r)}
+			return c20Update{Kind: "acct-touch", Logins: []string{"guest", "admin"}, Name: "G " + c20Token(r, 3)}
 		default:
 			return c20Update{Kind: "ban-add", IP: ips[r.Intn(len(ips))], Until: 1900000000 + int64(r.Intn(1000))}
 		}
@@ -1324,7 +1324,7 @@ func c20Recovery(c *Case, r *RNG, work string, last c20Update, store string, ips
 	ups := []c20Update{follow(store)}
 	// always: another account create and an account update (they write through the shared temp name)
 	ups = append(ups, c20Update{Kind: "acct-create", Login: "y" + c20Token(r, 5), Name: "Y", Access: c20RandAccess(r)})
-	ups = append(ups, c20Update{Kind: "acct-update", Login: "guest", NewLogin: "guest", Name: "G " + c20Token(r, 3), Access: c20RandAccess(r)})
+	ups = append(ups, c20Update{Kind: "acct-touch", Logins: []string{"guest", "admin"}, Name: "G " + c20Token(r, 3)})
 	if store == "accounts" && !last.Existing {
 		// the account the crashed update was about
 		logins := []string{last.Login}
@@ -1394,7 +1394,7 @@ func c20Recovery(c *Case, r *RNG, work string, last c20Update, store string, ips
 	byLogin := map[string]string{}
 	for _, e := range ents {
 		n := e.Name()
-		if !strings.HasSuffix(n, ".yaml") && n != ".account.tmp" {
+		if !strings.HasSuffix(n, ".yaml") { // (.account.tmp may stay linked to the last created file: every writer unlinks it first)
 			continue
 		}
 		fi, err := os.Stat(filepath.Join(users, n))
@@ -1405,13 +1405,10 @@ func c20Recovery(c *Case, r *RNG, work string, last c20Update, store string, ips
 			if other, dup := byIno[sys.Ino]; dup {
 				note()
 				c.Note("files", other+" , "+n)
-				c.Violation("aliased-account-files", "after recovery and further completed account writes two names in Users/ are the same file (hard link): a write through one rewrites the other")
+				c.Violation("aliased-account-files", "after recovery and further completed account writes two account files in Users/ are the same file (hard link): a write through one rewrites the other")
 				return false
 			}
 			byIno[sys.Ino] = n
-		}
-		if !strings.HasSuffix(n, ".yaml") {
-			continue
 		}
 		var acc hotline.Account
 		b, _ := os.ReadFile(filepath.Join(users, n))
